@@ -111,3 +111,36 @@ PROPS["C09"] = {"jobs": lambda: enc_jobs(["h_enc_model", "h_enc_reset"]), "assum
 PROPS["C10"] = {"jobs": lambda: enc_jobs(["h_enc_used", "h_enc_model"]), "assumptions": ENC_ASSUME + [
     "history quantifier by induction: (post) every encode leaves the scratch state cleared - asserted in h_enc_model; (step) from any such post-state with any remembered message type and counter, encode equals the fresh-encoder model - h_enc_used"],
                 "level": "bounded symbolic model checking of the induction step 'encode from any post-state of earlier calls == encode on a fresh encoder'"}
+
+
+# ------------------------------------------------------------------ C03 validators vs accessors
+C03_HDR = {1: 16, 2: 16, 3: 8, 4: 6, 5: 16, 6: 24, 7: 36}
+C03_NAME = {1: "CAN", 2: "CAN-FD", 3: "LIN", 4: "Ethernet", 5: "analog", 6: "capture-module status", 7: "interface status"}
+C03_PT = {1: (1, 1), 2: (1, 2), 3: (1, 3), 4: (1, 8), 5: (1, 7), 6: (3, 1), 7: (3, 2)}  # (message type, payload type byte)
+
+
+def c03_jobs():
+    jobs = []
+    for cls, h in C03_HDR.items():
+        extra = 16 if cls in (6, 7) else 8
+        sizes = list(range(0, h + extra + 1))
+        quick = {0, h - 1, h, h + 1, h + 2, h + 3, h + 4, h + extra, h + extra - 1}
+        if cls in (6, 7):
+            quick |= {h + 10, h + 11, h + 12}
+        for n in sizes + ([h + 40] if cls in (6, 7) else []):
+            tier = "quick" if n in quick else "thorough"
+            common = dict(unwind=80, tier=tier, in_max=n + 24, sym="every byte of the %d-byte buffer incl. all inner length fields" % n,
+                          outside="buffers longer than header+%d bytes" % max(extra, 40 if cls in (6, 7) else extra))
+            jobs.append(Job("c03.cpp", "h_valid_class", defs={"CLS": cls, "NB": n}, **common))
+            jobs.append(Job("c03.cpp", "h_reject_small", defs={"CLS": cls, "NB": n}, **common))
+            mt, pt = C03_PT[cls]
+            jobs.append(Job("c03.cpp", "h_valid_packet", defs={"CLS": cls, "NB": n, "MT": mt, "PT": pt, "FULL": 1}, **common))
+            c2 = dict(common, tier="thorough", sym=common["sym"] + "; declared message length symbolic (0..buffer)")
+            jobs.append(Job("c03.cpp", "h_valid_packet", defs={"CLS": cls, "NB": n, "MT": mt, "PT": pt, "FULL": 0}, **c2))
+    return jobs
+
+
+PROPS["C03"] = {"jobs": c03_jobs, "assumptions": COMMON_ASSUME + [
+    "buffer size is a concrete shape parameter (0..header+8, status classes ..header+16 and header+40); the declared message length in the Packet family is symbolic",
+    "the payload's vector is allocated with exactly the buffer size, so CBMC's pointer check on every library dereference decides 'reads only inside'"],
+    "level": "bounded symbolic model checking of validator => accessor safety for all buffer contents per size"}
